@@ -34,7 +34,7 @@
 EXTENDS Integers, Sequences, FiniteSets, TLC
 
 HdrClasses   == {"ok", "len0", "lensmall", "lenplus", "lenpage", "lenhuge", "prefix", "meta"}
-TruncClasses == {"none", "zero", "pageminus1", "onepage"}
+TruncClasses == {"none", "zero", "pageminus1", "onepage", "pageplus"}   \* pageplus: one page and 100 bytes (not a multiple of the page size)
 LimitClasses == {"ok", "zero", "hdr", "table", "low", "unaligned", "beyondfile", "near32", "wrappage"}
 (* near32: rounding the limit up to the record unit wraps around 2^32; wrappage: the record still fits *)
 (* below 2^32 but rounding its end up to the page size wraps (the file would have to grow past 4 GiB) *)
@@ -43,7 +43,7 @@ HeadNClasses == {"zero", "valid", "hdr", "table", "unaligned", "gelimit", "gefil
 NlenClasses  == {"ok", "zero", "pastpage", "pastend", "pastfile"}   \* pastend: the name ends 8 bytes beyond the file
 NextCClasses == {"ok", "zero", "self", "other", "range", "ffff"}
 NextEClasses == {"ok", "other", "self", "cycle2", "range", "ffff"}
-ValClasses   == {"nz", "zero"}                 \* the values of records C and E
+ValClasses   == {"nz", "zero", "max"}          \* the values of records C and E (max = 2^64-1: a counter cannot grow any more)
 AddOps       == {"addE", "addN", "addM"}
 ParseOps     == {"read", "upload"}             \* counter.Read of E / upload.Run over the directory: both read the whole file
 Ops          == AddOps \cup ParseOps
@@ -58,7 +58,7 @@ Damage(f) == Cardinality({d \in Dims : f[d] # Undamaged[d]})
 (* that is not a record position inside the file)                              *)
 (* V lives on the second page: after a truncation to one page its offset lies  *)
 (* beyond the file                                                              *)
-VNode(f) == IF f.trunc = "onepage" THEN "bad" ELSE "V"
+VNode(f) == IF f.trunc \in {"onepage", "pageplus"} THEN "bad" ELSE "V"
 HeadOf(f, bucket) ==
     IF bucket = "bE" THEN (IF f.headE = "ok" THEN "C" ELSE IF f.headE = "zero" THEN "nil" ELSE "bad")
     ELSE (IF f.headN = "zero" THEN "nil" ELSE IF f.headN = "valid" THEN VNode(f) ELSE "bad")
@@ -105,7 +105,7 @@ ExpectMode(f, op) ==
          CASE r[1] = "invalid" -> "memory"
            [] r[1] = "cycle"   -> "any"           \* must return; nothing more is promised
            [] r[2]             -> "any"
-           [] r[1] = "found"   -> "persist"
+           [] r[1] = "found"   -> IF f.vals = "max" THEN "any" ELSE "persist"    \* a counter at its maximum stays there
            [] OTHER            -> AllocClass(f)
 (* a parked file is not written to at all; reading a counter back writes nothing *)
 ExpectUntouched(f, op) == ExpectOpen(f) = "parks" \/ (op = "read" /\ ~TooShort(f))
@@ -113,7 +113,7 @@ ExpectUntouched(f, op) == ExpectOpen(f) = "parks" \/ (op = "read" /\ ~TooShort(f
 Expected(f, op) == [open |-> ExpectOpen(f), mode |-> ExpectMode(f, op), untouched |-> ExpectUntouched(f, op)]
 
 (* ---- the observed outcome of a real run and its verdict --------------------- *)
-(* o = [open, ret, mode, others, untouched, dbl]; mode: persist (the amount is   *)
+(* o = [open, ret, mode, others, untouched, dbl, dec]; mode: persist (the amount is   *)
 (* in the file), memory (it is pending in memory), dropped (neither), other.     *)
 (* The property lets a failure keep counts in memory or drop them, so "dropped"  *)
 (* is accepted where "memory" is expected.                                       *)
@@ -125,6 +125,7 @@ Safety(o) ==
     IF o.ret # "ok" THEN o.ret                               \* panic / memfault / hang / blocked
     ELSE IF o.others THEN "other-counter-changed"
     ELSE IF o.dbl THEN "double-unmap"
+    ELSE IF o.dec THEN "counter-decreased"                   \* the readable value of the counter itself went down
     ELSE "ok"
 (* the documented class: "ok" or the clause in which model and code differ *)
 ClassCheck(f, op, o) ==
@@ -147,7 +148,7 @@ FamilyA == {[Undamaged EXCEPT !.hdr = h, !.trunc = t, !.limit = l] : h \in HdrCl
 (* family B: intact header, no truncation; limit x heads x name length x links   *)
 FamilyB == {f \in [hdr : {"ok"}, trunc : {"none"}, limit : LimitClasses, headE : HeadEClasses, headN : HeadNClasses,
                    nlenC : NlenClasses, nextC : NextCClasses, nextE : NextEClasses, vals : ValClasses] :
-                    Damage(f) <= (IF f.vals = "zero" /\ MaxDamage > 3 THEN 3 ELSE MaxDamage)}
+                    Damage(f) <= (IF f.vals # "nz" /\ MaxDamage > 3 THEN 3 ELSE MaxDamage)}
 
 Init == /\ file \in FamilyA \cup FamilyB
         /\ op \in AddOps \cup (IF Damage(file) <= MaxDamageParse THEN ParseOps ELSE {})
@@ -160,7 +161,9 @@ TypeOK == /\ exp.open \in {"opens", "parks"}
           /\ exp.mode \in {"persist", "memory", "any"}
 UndamagedPersists == (Damage(file) = 0 /\ op \in AddOps) => exp = [open |-> "opens", mode |-> "persist", untouched |-> FALSE]
 (* zero-valued records are records like any other *)
-ValuesIrrelevant  == exp = Expected([file EXCEPT !.vals = "nz"], op) /\ Lookup(file, op) = Lookup([file EXCEPT !.vals = "nz"], op)
+ValuesIrrelevant  == /\ Lookup(file, op) = Lookup([file EXCEPT !.vals = "nz"], op)
+                     /\ file.vals = "zero" => exp = Expected([file EXCEPT !.vals = "nz"], op)
+                     /\ (file.vals = "max" /\ op # "addE") => exp = Expected([file EXCEPT !.vals = "nz"], op)
 ParkedMeansMemory == exp.open = "parks" => (op \in AddOps => exp.mode = "memory") /\ exp.untouched
 (* an amount is kept in memory only because of some damage, and a cycle is only  *)
 (* possible where a link was damaged                                             *)
@@ -171,7 +174,7 @@ OtherBucketIrrelevant ==
     /\ op = "addN" => ExpectMode(file, op) = ExpectMode([file EXCEPT !.headE = "ok", !.nlenC = "ok", !.nextC = "ok", !.nextE = "ok"], op)
     /\ op # "addN" => ExpectMode(file, op) = ExpectMode([file EXCEPT !.headN = "zero"], op)
 (* a lookup that finds its record does not depend on the allocation limit *)
-FoundIgnoresLimit == (op \in AddOps /\ ~TooShort(file) /\ file.hdr = "ok" /\ Lookup(file, op)[1] = "found" /\ ~Lookup(file, op)[2]) => exp.mode = "persist"
+FoundIgnoresLimit == (op \in AddOps /\ file.vals # "max" /\ ~TooShort(file) /\ file.hdr = "ok" /\ Lookup(file, op)[1] = "found" /\ ~Lookup(file, op)[2]) => exp.mode = "persist"
 (* the walk is total: it always ends in one of the four outcomes *)
 WalkTotal == Lookup(file, op)[1] \in {"found", "absent", "invalid", "cycle"}
 Sane == TypeOK /\ UndamagedPersists /\ ValuesIrrelevant /\ ParkedMeansMemory /\ MemoryHasCause /\ CycleHasCause /\ OtherBucketIrrelevant /\ FoundIgnoresLimit /\ WalkTotal
